@@ -159,9 +159,13 @@ def emit_calls(methods):
     o = [HEADER]
     for m in methods:
         if m.kind in ("simple", "movimm", "mem"):
-            # composite helpers emit a symbolic number of words: finalize(1) there (see support::words1)
-            o.append("pub fn call_%s(%s) -> Words {\n    let mut a = AssemblerArm64::new();\n    a.%s(%s);\n    %s(a)\n}\n"
-                     % (m.name, m.sig(), m.name, ", ".join(m.call_args), "words" if m.kind == "simple" else "words1"))
+            # composite helpers emit a symbolic number of words: overwrite mode (see support.rs)
+            if m.kind == "simple":
+                o.append("pub fn call_%s(%s) -> Words {\n    let mut a = AssemblerArm64::new();\n    a.%s(%s);\n    words(a)\n}\n"
+                         % (m.name, m.sig(), m.name, ", ".join(m.call_args)))
+            else:
+                o.append("pub fn call_%s(%s) -> Words {\n    let mut a = prefilled();\n    a.%s(%s);\n    words_written(a)\n}\n"
+                         % (m.name, m.sig(), m.name, ", ".join(m.call_args)))
         o.append("pub fn legal_%s(%s) -> bool {\n    %s\n}\n" % (m.name, m.sig(), m.text("legal")))
         o.append("pub fn contract_%s(%s) -> bool {\n    %s\n}\n" % (m.name, m.sig(), m.text("contract")))
         if m.kind == "simple":
@@ -189,7 +193,7 @@ def decl_symbolic(m, indent="    "):
     return "\n".join(o)
 
 
-UNWIND = {"simple": 8, "movimm": 66, "mem": 66}
+UNWIND = {"simple": 8, "movimm": 66, "mem": 66, "label": 12}
 
 
 def emit_harnesses(methods):
@@ -199,9 +203,10 @@ def emit_harnesses(methods):
         if m.kind in ("simple", "movimm", "mem"):
             uw = int(m.fam.get("unwind", UNWIND[m.kind]))
             pre = m.text("assume")  # aliasing preconditions that are neither legality nor refusal
-            o.append("""#[kani::proof]
+            stub = "" if m.kind == "simple" else "#[kani::stub(std::vec::Vec::reserve, crate::support::reserve_once_small)]\n"
+            o.append(("""#[kani::proof]
 #[kani::unwind(%d)]
-fn legal__%s() {
+""" + stub + """fn legal__%s() {
 %s
     kani::assume(%s);
     kani::assume(legal_%s(%s) && contract_%s(%s));
@@ -209,11 +214,11 @@ fn legal__%s() {
     kani::cover!(true, "VACUITY call returned");
     assert!(post_%s(&w, %s), "POST decode(word) == requested instruction");
 }
-""" % (uw, m.name, decl_symbolic(m), pre, m.name, m.args(), m.name, m.args(), m.name, m.args(), m.name, m.args()))
+""") % (uw, m.name, decl_symbolic(m), pre, m.name, m.args(), m.name, m.args(), m.name, m.args(), m.name, m.args()))
             names.append(("legal__" + m.name, m.name, "legal", "quick"))
-            o.append("""#[kani::proof]
+            o.append(("""#[kani::proof]
 #[kani::unwind(%d)]
-fn any__%s() {
+""" + stub + """fn any__%s() {
 %s
     kani::assume(%s);
     let w = call_%s(%s);
@@ -221,7 +226,7 @@ fn any__%s() {
     assert!(legal_%s(%s), "POST accepted operands are encodable");
     assert!(post_%s(&w, %s), "POST decode(word) == requested instruction");
 }
-""" % (uw, m.name, decl_symbolic(m), pre, m.name, m.args(), m.name, m.args(), m.name, m.args()))
+""") % (uw, m.name, decl_symbolic(m), pre, m.name, m.args(), m.name, m.args(), m.name, m.args()))
             names.append(("any__" + m.name, m.name, "any", "thorough"))
         else:
             txt, ns = emit_label_harnesses(m)
@@ -233,7 +238,7 @@ fn any__%s() {
 # ---- label methods ------------------------------------------------------------------------
 # Spec keys of a label family: OP (decoder Op of the direct form), FORM, rt ("none"|"x"|"w"),
 # has `cond` / `bit` parameters as in the source signature.
-NEAR = 32          # filler words
+NEAR = 8           # filler words of the near label harnesses (the far harness covers every forward distance)
 FILL = "0xD503201Fu32"  # nop
 
 
@@ -256,29 +261,29 @@ def emit_label_calls(m):
     sig = (sig + ", " if sig else "") + "k: u32"
     post = m.text("post")
     return """pub fn run_%(n)s_bwd(%(sig)s) -> (Vec<u8>, usize, usize) {
-    let mut a = AssemblerArm64::new();
-    a.emit_u32(%(fill)s);
+    // overwrite mode: the k filler words are the NOPs the buffer is pre-filled with
+    let mut a = prefilled_label();
+    a.set_position(4);
     let l = a.create_and_bind_label();
     let target = 4usize;
-    let mut i = 0u32;
-    while i < k { a.emit_u32(%(fill)s); i += 1; }
+    a.set_position(4 + 4 * (k as usize));
     let pos = a.position();
     %(call)s
-    a.emit_u32(%(fill)s);
-    (a.finalize(1).code(), pos, target)
+    a.set_position_end();
+    (a.finalize(4).code(), pos, target)
 }
 pub fn run_%(n)s_fwd(%(sig)s) -> (Vec<u8>, usize, usize) {
-    let mut a = AssemblerArm64::new();
-    a.emit_u32(%(fill)s);
+    let mut a = prefilled_label();
+    a.set_position(4);
     let l = a.create_label();
     let pos = a.position();
     %(call)s
-    let mut i = 0u32;
-    while i < k { a.emit_u32(%(fill)s); i += 1; }
+    let after = a.position();
+    a.set_position(after + 4 * (k as usize));
     let target = a.position();
     a.bind_label(l);
-    a.emit_u32(%(fill)s);
-    (a.finalize(1).code(), pos, target)
+    a.set_position_end();
+    (a.finalize(4).code(), pos, target)
 }
 pub fn run_%(n)s_far(%(sig)s) -> (Vec<u8>, usize, usize) {
     let mut a = AssemblerArm64::new();
@@ -289,6 +294,20 @@ pub fn run_%(n)s_far(%(sig)s) -> (Vec<u8>, usize, usize) {
     a.set_position(target);
     a.bind_label(l);
     a.set_position_end();
+    a.emit_u32(%(fill)s);
+    (a.finalize(4).code(), pos, target)
+}
+/// native only: forward reference over k REAL appended filler words (replay of far counterexamples)
+pub fn run_%(n)s_real(%(sig)s) -> (Vec<u8>, usize, usize) {
+    let mut a = AssemblerArm64::new();
+    a.emit_u32(%(fill)s);
+    let l = a.create_label();
+    let pos = a.position();
+    %(call)s
+    let mut i = 0u32;
+    while i < k { a.emit_u32(%(fill)s); i += 1; }
+    let target = a.position();
+    a.bind_label(l);
     a.emit_u32(%(fill)s);
     (a.finalize(4).code(), pos, target)
 }
@@ -307,12 +326,12 @@ def emit_label_harnesses(m):
     a2 = (args + ", " if args else "")
     o = []
     names = []
-    for hk, two, kdom, uw, tier in (("fwd", "true", "k <= %d" % NEAR, NEAR + 4, "thorough"),
-                                    ("bwd", "false", "k <= %d" % NEAR, NEAR + 4, "thorough"),
+    for hk, two, kdom, uw, tier in (("fwd", "true", "k <= %d" % NEAR, 12, "thorough"),
+                                    ("bwd", "false", "k <= %d" % NEAR, 12, "thorough"),
                                     ("far", "true", "k < (1u32 << 29)", 8, "quick")):
         o.append("""#[kani::proof]
 #[kani::unwind(%(uw)d)]
-fn %(hk)s__%(n)s() {
+%(stub)sfn %(hk)s__%(n)s() {
 %(decl)s
     let k: u32 = kani::any();
     kani::assume(%(kdom)s);
@@ -321,7 +340,8 @@ fn %(hk)s__%(n)s() {
     kani::cover!(true, "VACUITY call returned");
     assert!(post_%(n)s(&code, pos, target, %(two)s, %(a2)sk), "POST branch reaches the bound label");
 }
-""" % {"uw": uw, "hk": hk, "n": m.name, "decl": decl_symbolic(m), "kdom": kdom, "args": args, "a2": a2, "two": two})
+""" % {"uw": uw, "hk": hk, "n": m.name, "decl": decl_symbolic(m), "kdom": kdom, "args": args, "a2": a2, "two": two,
+       "stub": "" if hk == "far" else "#[kani::stub(std::vec::Vec::reserve, crate::support::reserve_once_label)]\n"})
         names.append(("%s__%s" % (hk, m.name), m.name, hk, tier))
     return "\n".join(o), names
 
@@ -366,7 +386,7 @@ def emit_dispatch(methods):
             // natively the far case is replayed with REAL filler words (dir 2 -> forward)
             let mut r = Report { method: name.to_string(), kind: kind.to_string(), args: a.to_vec(), refused: false, panic_msg: String::new(),
                 legal: legal_%(n)s(%(args)s), contract: contract_%(n)s(%(args)s), words: Vec::new(), ok: false, expected: None, focus: 0, note: String::new() };
-            let res = if dir == 1 { catch_unwind(|| run_%(n)s_bwd(%(a2)sk)) } else if dir == 3 { catch_unwind(|| run_%(n)s_far(%(a2)sk)) } else { catch_unwind(|| run_%(n)s_fwd(%(a2)s if dir == 2 { k.saturating_sub(%(slots)d) } else { k })) };
+            let res = if dir == 1 { catch_unwind(|| run_%(n)s_bwd(%(a2)sk)) } else if dir == 3 { catch_unwind(|| run_%(n)s_far(%(a2)sk)) } else if dir == 2 { catch_unwind(|| run_%(n)s_real(%(a2)sk.saturating_sub(%(slots)d))) } else { catch_unwind(|| run_%(n)s_fwd(%(a2)sk)) };
             match res {
                 Ok((code, pos, target)) => {
                     r.ok = post_%(n)s(&code, pos, target, dir != 1, %(a2)sk);
